@@ -1025,8 +1025,9 @@ Proof.
   - bsplit. split; [|split; assumption].
     rewrite forallb_Forall in H. eapply Forall_impl; [|exact H]. intros [k v] Hkv. cbn in Hkv. bsplit.
     unfold other_entry_ok. cbn [fst snd]. split; [exists kind; auto|]. split; [assumption|].
-    intros fk fs' Hin. rewrite forallb_forall in H2. specialize (H2 _ Hin). cbn [fst] in H2.
-    apply negb_true_iff in H2. exact H2.
+    intros fk fs' Hin.
+    match goal with Hf : forallb _ fields = true |- _ => rewrite forallb_forall in Hf; specialize (Hf _ Hin); cbn [fst] in Hf;
+      apply negb_true_iff in Hf; exact Hf end.
   - destruct others; [|discriminate]. repeat split; constructor.
 Qed.
 
@@ -1050,3 +1051,132 @@ Section StructFacts.
   Lemma find_other : forall e, other_entry_ok fields other e -> find_field o (fst e) (snd e) fields 0 = None.
   Proof. intros e (_ & _ & H). apply find_field_none. exact H. Qed.
 End StructFacts.
+
+Lemma key_value_okb : forall k, key_ok k = true -> value_okb (key_value k) = true.
+Proof. destruct k; cbn [key_ok key_value]; intros H; exact H. Qed.
+
+Lemma other_key_okb : forall kind k, other_key_ok kind k = true -> value_okb k = true /\ is_mapkey k = true.
+Proof. intros kind k H. destruct k; try discriminate H; [destruct kind; try discriminate H|]; split; try reflexivity; exact H. Qed.
+
+Lemma rt_struct : forall fields other, Forall (fun f => RTS (snd f)) fields -> RTS (SStruct fields other).
+Proof.
+  intros fields other IH Hwf x Hty. cbn [schema_wfb] in Hwf. apply andb_true_iff in Hwf. destruct Hwf as [Hwf Hdist].
+  destruct x as [ | | | | | | | | |xs others| | | | ]; try discriminate.
+  rewrite typedb_struct in Hty. apply andb_true_iff in Hty. destruct Hty as [Hty Hoth].
+  apply andb_true_iff in Hty. destruct Hty as [Hlen Htf]. apply N.ltb_lt in Hlen.
+  destruct (rows_exist fields IH Hwf xs Htf) as (rows & Ef & Ex & Hrows & Eenc).
+  destruct (others_facts fields other others Hoth) as (OF1 & OF2 & OF3).
+  set (es := present false rows ++ others).
+  assert (Esenc : senc (SStruct fields other) (XStruct xs others) = Some (VMap false es)).
+  { rewrite senc_struct, Eenc. destruct other; [reflexivity|]. destruct others; [reflexivity|discriminate Hoth]. }
+  exists (VMap false es). split; [exact Esenc|].
+  assert (RowsF : forall r, In r rows -> row_ok r) by (rewrite Forall_forall in Hrows; exact Hrows).
+  assert (OthF : forall e, In e others -> other_entry_ok fields other e) by (rewrite Forall_forall in OF1; exact OF1).
+  split.
+  { (* the written map is a well-formed value *)
+    cbn [value_okb negb andb]. apply andb_true_iff. split.
+    - apply N.ltb_lt. unfold es, len in *. rewrite app_length. pose proof (present_length false rows).
+      rewrite <- Ex, map_length in Hlen. lia.
+    - rewrite forallb_forall. intros [k v] Hin. unfold es in Hin. apply in_app_or in Hin. destruct Hin as [Hin|Hin].
+      + apply In_present in Hin. destruct Hin as (r & Hr & _ & E). inversion E; subst.
+        destruct (RowsF r Hr) as (Kok & _ & Vok & _). rewrite (key_value_okb _ Kok), Vok. reflexivity.
+      + destruct (OthF _ Hin) as ([kind [_ Hk]] & Hv & _). cbn [fst snd] in *.
+        destruct (other_key_okb _ _ Hk) as [Kok _]. destruct (wf_norm_strip v Hv) as (_ & _ & Vok). rewrite Kok, Vok. reflexivity. }
+  split; [intro; reflexivity|].
+  intros o mk. rewrite norm_map, sdec_struct.
+  set (N := map snd (isortk (keyed es))).
+  set (es' := present true rows ++ others).
+  assert (Ees' : map (fun e => snd (gk e)) es = es').
+  { unfold es, es'. rewrite map_app, present_norm. f_equal.
+    rewrite <- (map_id others) at 2. apply map_ext_in. intros e He. apply (other_entry_norm fields other e (OthF e He)). }
+  assert (InN : forall y, In y N <-> In y es').
+  { intros y. unfold N. rewrite <- Ees', keyed_gk, !in_map_iff. split.
+    - intros [z [Hz Hin]]. destruct (In_isortk (fun _ => true) z (map gk es)) as [Hfw _]. apply Hfw in Hin. apply in_map_iff in Hin. destruct Hin as [e [He Hin]]. subst. exists e. auto.
+    - intros [e [He Hin]]. exists (gk e). split; [exact He|]. destruct (In_isortk (fun _ => true) (gk e) (map gk es)) as [_ Hbw]. apply Hbw. apply in_map. exact Hin. }
+  (* rows and their positions *)
+  assert (RowAt : forall i r, nth_error rows i = Some r -> nth_error fields i = Some (rk r, rs r)).
+  { intros i r Hn. rewrite <- Ef. apply (map_nth_error rf) in Hn. exact Hn. }
+  assert (FindRow : forall i r w, nth_error rows i = Some r ->
+            find_field o (key_value (rk r)) w fields 0 = Some (i, sdec o (rs r) false w)).
+  { intros i r w Hn. apply (find_present o fields Hdist). apply RowAt. exact Hn. }
+  (* every entry of the normalized map is acceptable to the loop *)
+  assert (EntryOK : Forall (entry_ok o fields other) N).
+  { rewrite Forall_forall. intros e He. apply InN in He. unfold es' in He. apply in_app_or in He. destruct He as [He|He].
+    - apply In_present in He. destruct He as (r & Hr & _ & ->). unfold entry_ok. cbn [fst snd].
+      split; [destruct (rk r); reflexivity|].
+      apply In_nth_error in Hr. destruct Hr as [i Hn]. rewrite (FindRow i r _ Hn).
+      destruct (RowsF r (nth_error_In _ _ Hn)) as (_ & _ & _ & D & _). rewrite (D o false). exact I.
+    - pose proof (OthF e He) as Oe. unfold entry_ok. rewrite (find_other o fields other e Oe).
+      destruct Oe as ([kind [Eo Hk]] & _ & _). destruct (other_key_okb _ _ Hk) as [_ Mk]. split; [exact Mk|].
+      unfold other_accepts. rewrite Eo. destruct kind; [|exact I].
+      destruct (fst e); try discriminate Hk. eexists; reflexivity. }
+  destruct (fold_struct o fields other N (map (fun _ => None) fields) [] (map_length _ _) EntryOK) as (slots' & E & L & Pt).
+  rewrite E.
+  (* the catch-all map comes back as it was *)
+  assert (Oth : fold_left ups (filter (is_unk o fields) N) [] = others).
+  { assert (Ef' : filter (is_unk o fields) N = others).
+    { unfold N. rewrite filter_map_comm, filter_isortk, keyed_gk, filter_map_comm. unfold es. rewrite filter_app.
+      rewrite filter_all_false, filter_all_true, app_nil_l.
+      - rewrite isortk_sorted.
+        + rewrite map_map. rewrite <- (map_id others) at 2. apply map_ext_in. intros e He.
+          apply (other_entry_norm fields other e (OthF e He)).
+        + rewrite map_map. erewrite map_ext; [exact OF3|]. intros [k v]. reflexivity.
+      - intros e He. pose proof (OthF e He) as Oe. destruct (other_entry_norm fields other e Oe) as [En _]. rewrite En.
+        unfold is_unk. rewrite (find_other o fields other e Oe). reflexivity.
+      - intros e He. apply In_present in He. destruct He as (r & Hr & _ & ->). cbn [gk snd]. rewrite norm_key_value.
+        apply In_nth_error in Hr. destruct Hr as [i Hn]. unfold is_unk. cbn [fst snd]. rewrite (FindRow i r _ Hn). reflexivity. }
+    rewrite Ef'. rewrite (fold_ups_fresh others []); [reflexivity|exact OF2|].
+    intros e He. apply (other_entry_norm fields other e (OthF e He)). }
+  rewrite Oth.
+  (* every slot holds the field's value, or is empty for a null field *)
+  assert (HitPresent : forall i i' r, nth_error rows i' = Some r ->
+            hit o fields i (key_value (rk r), norm (rv r)) = if Nat.eqb i' i then Some (rx r) else None).
+  { intros i i' r Hn. unfold hit. cbn [fst snd]. rewrite (FindRow i' r _ Hn).
+    destruct (RowsF r (nth_error_In _ _ Hn)) as (_ & _ & _ & D & _). rewrite (D o false). reflexivity. }
+  assert (HitOther : forall i e, In e others -> hit o fields i e = None).
+  { intros i e He. unfold hit. rewrite (find_other o fields other e (OthF e He)). reflexivity. }
+  assert (Fin : struct_fin fields slots' = Some (map rx rows)).
+  { apply (fin_spec rows fields slots' Ef Hrows). intros i r Hn. rewrite (Pt i).
+    destruct (is_null (rx r)) eqn:En.
+    - rewrite last_hit_none.
+      + eapply nth_map_none. apply RowAt. exact Hn.
+      + intros e He. apply InN in He. unfold es' in He. apply in_app_or in He. destruct He as [He|He]; [|apply HitOther; exact He].
+        apply In_present in He. destruct He as (r' & Hr' & Hn' & ->). apply In_nth_error in Hr'. destruct Hr' as [i' Hi'].
+        rewrite (HitPresent i i' r' Hi'). destruct (Nat.eqb_spec i' i) as [->|]; [|reflexivity]. congruence.
+    - rewrite (last_hit_some o fields i N (rx r)); [reflexivity| |].
+      + intros e y' He Hh. apply InN in He. unfold es' in He. apply in_app_or in He. destruct He as [He|He];
+          [|rewrite (HitOther i e He) in Hh; discriminate].
+        apply In_present in He. destruct He as (r' & Hr' & Hn' & ->). apply In_nth_error in Hr'. destruct Hr' as [i' Hi'].
+        rewrite (HitPresent i i' r' Hi') in Hh. destruct (Nat.eqb_spec i' i) as [->|]; [|discriminate]. congruence.
+      + exists (key_value (rk r), norm (rv r)). split.
+        * apply InN. unfold es'. apply in_or_app. left. apply In_present. exists r. split; [eapply nth_error_In; exact Hn|]. auto.
+        * rewrite (HitPresent i i r Hn), Nat.eqb_refl. reflexivity. }
+  rewrite Fin, Ex. reflexivity.
+Qed.
+
+(** * The theorem *)
+Theorem schema_roundtrip_all : forall s, RTS s.
+Proof.
+  induction s using schema_ind'.
+  - apply rt_uint. - apply rt_int. - apply rt_bool. - apply rt_text. - apply rt_bytes. - apply rt_bytesn. - apply rt_value.
+  - apply rt_option; assumption. - apply rt_vec; assumption. - apply rt_tuple; assumption. - apply rt_struct; assumption.
+  - apply rt_tag; assumption. - apply rt_enum_map; assumption. - apply rt_enum_tagged; assumption.
+  - apply rt_maybe; assumption. - apply rt_refine; assumption.
+Qed.
+
+(** at the level of bytes: [cbor_decode (cbor_encode x) = x] at every type, under both decoding options *)
+Theorem typed_roundtrip : forall s x o, schema_wfb s = true -> typedb s x = true ->
+  exists bs, encode_typed s x = Some bs /\ decode_typed s o bs = Some x.
+Proof.
+  intros s x o Hwf Hty. destruct (schema_roundtrip_all s Hwf x Hty) as (v & E & Ok & _ & D).
+  exists (encode v). unfold encode_typed, decode_typed. rewrite E. split; [reflexivity|].
+  destruct (decode_encode_norm v Ok) as [a Ea]. rewrite Ea. apply D.
+Qed.
+
+(** the schema-level statement in the form "decode (encode x) = x on the normal form of the written item" *)
+Theorem schema_roundtrip_norm : forall s x o mk, schema_wfb s = true -> typedb s x = true ->
+  exists v, senc s x = Some v /\ value_okb v = true /\ sdec o s mk (norm v) = Some x.
+Proof.
+  intros s x o mk Hwf Hty. destruct (schema_roundtrip_all s Hwf x Hty) as (v & E & Ok & _ & D).
+  exists v. auto.
+Qed.
